@@ -466,9 +466,8 @@ theorem ledger_chan (b : RB) (c : Option Msg) (h : Ledger b) : Ledger { b with c
   obtain ⟨pre, suf, h1, h2, h3, h4, h5⟩ := h
   exact ⟨pre, suf, h1, h2, h3, h4, h5⟩
 
-/-- the producer's `put` of a message, when it does not panic -/
-theorem sim_put (s : State) (sp : Spec) (r : Msg) (hi : Inv s) (hr : R s sp)
-    (hnp : putPanics s.rb r = false) :
+/-- the producer's `put` of a message -/
+theorem sim_put (s : State) (sp : Spec) (r : Msg) (hi : Inv s) (hr : R s sp) :
     ∃ sp', (match r with
             | .data b => sp.check (.putD b) .ok
             | .err e => sp.check (.putE e) .ok) = .ok sp'
@@ -720,21 +719,15 @@ theorem step_hdr_eq (s : State) (n : Nat) :
       | some l => rfl
       | none => cases hc : s.rb.chan <;> rfl
 
-/-- One step of the ported code, when it does not panic, is allowed by the FIFO specification, and
-    the simulation relation and the invariants are re-established. -/
-theorem sim_step (s : State) (sp : Spec) (op : Op) (hi : Inv s) (hr : R s sp)
-    (hnp : (step s op).2 ≠ .panic) :
+/-- One step of the ported code is allowed by the FIFO specification, and the simulation relation
+    and the invariants are re-established. -/
+theorem sim_step (s : State) (sp : Spec) (op : Op) (hi : Inv s) (hr : R s sp) :
     ∃ sp', sp.check op (step s op).2 = .ok sp' ∧ R (step s op).1 sp' ∧ Inv (step s op).1 := by
   cases op with
   | putD b =>
-    exact sim_put s sp (.data b) hi hr (by simp [putPanics, Msg.isData])
+    exact sim_put s sp (.data b) hi hr
   | putE e =>
-    have hnp' : putPanics s.rb (.err e) = false := by
-      cases h : putPanics s.rb (.err e) with
-      | false => rfl
-      | true => exfalso; apply hnp; simp [step, h]
-    have := sim_put s sp (.err e) hi hr hnp'
-    simpa [step, hnp'] using this
+    exact sim_put s sp (.err e) hi hr
   | load =>
     obtain ⟨hled, hfull, hlastNe, hheld⟩ := hi
     obtain ⟨l1, l2, l3, l4⟩ := load_queue s.rb
@@ -829,89 +822,23 @@ theorem good_init (c : Bool) : Good (init c) := ⟨inv_init c, _, rel_init c⟩
 
 theorem good_step (s : State) (op : Op) (h : Good s) : Good (step s op).1 := by
   obtain ⟨hi, sp, hr⟩ := h
-  by_cases hp : (step s op).2 = .panic
-  · -- only a `put` of an error into a closed buffer panics; it leaves the state unchanged
-    cases op with
-    | putE e =>
-      have hclosed : s.rb.err.isSome = true := by
-        simp only [step] at hp
-        split at hp
-        · rename_i h; simp [putPanics] at h; exact h.1
-        · cases hp
-      have : (step s (.putE e)).1 = s := by
-        simp only [step, put_closed _ _ hclosed]
-      rw [this]; exact ⟨hi, sp, hr⟩
-    | putD b => simp [step] at hp
-    | load => simp [step] at hp
-    | read n =>
-      exfalso
-      rw [step_read_eq] at hp
-      split at hp
-      · cases hp
-      · split at hp
-        · cases hp
-        · split at hp
-          · cases hp
-          · split at hp
-            · cases hp
-            · rename_i m _
-              cases m <;> simp [readAdditional] at hp
-              split at hp <;> cases hp
-    | hdr n =>
-      exfalso
-      rw [step_hdr_eq] at hp
-      split at hp
-      · cases hp
-      · split at hp
-        · cases hp
-        · split at hp
-          · cases hp
-          · split at hp
-            · cases hp
-            · rename_i m _
-              cases m <;> simp [readHeaderAdditional] at hp
-    | rbegin =>
-      exfalso
-      simp only [step] at hp
-      split at hp
-      · cases hp
-      · split at hp
-        · cases hp
-        · split at hp <;> cases hp
-    | fin n =>
-      exfalso
-      simp only [step] at hp
-      split at hp
-      · cases hp
-      · rename_i m _
-        cases m <;> simp [readAdditional] at hp
-        split at hp <;> cases hp
-    | finh n =>
-      exfalso
-      simp only [step] at hp
-      split at hp
-      · cases hp
-      · rename_i m _
-        cases m <;> simp [readHeaderAdditional] at hp
-  · obtain ⟨sp', _, h2, h3⟩ := sim_step s sp op hi hr hp
-    exact ⟨h3, sp', h2⟩
+  obtain ⟨sp', _, h2, h3⟩ := sim_step s sp op hi hr
+  exact ⟨h3, sp', h2⟩
 
 theorem good_run (s : State) (ops : List Op) (h : Good s) : Good (run s ops).1 := by
   induction ops generalizing s with
   | nil => exact h
   | cons o os ih => rw [run_cons]; exact ih _ (good_step s o h)
 
-/-- the whole run, when it never panics, is accepted by the specification automaton -/
-theorem sim_run (s : State) (sp : Spec) (ops : List Op) (hi : Inv s) (hr : R s sp)
-    (hnp : Out.panic ∉ (run s ops).2) :
+/-- every run is accepted by the specification automaton -/
+theorem sim_run (s : State) (sp : Spec) (ops : List Op) (hi : Inv s) (hr : R s sp) :
     ∃ sp', sp.checkAll ops (run s ops).2 = .ok sp' ∧ R (run s ops).1 sp' ∧ Inv (run s ops).1 := by
   induction ops generalizing s sp with
   | nil => exact ⟨sp, rfl, hr, hi⟩
   | cons o os ih =>
-    rw [run_cons] at hnp ⊢
-    simp only [List.mem_cons, not_or] at hnp
-    obtain ⟨sp1, h1, h2, h3⟩ := sim_step s sp o hi hr (fun h => hnp.1 h.symm)
-    obtain ⟨sp2, g1, g2, g3⟩ := ih _ sp1 h3 h2 hnp.2
+    rw [run_cons]
+    obtain ⟨sp1, h1, h2, h3⟩ := sim_step s sp o hi hr
+    obtain ⟨sp2, g1, g2, g3⟩ := ih _ sp1 h3 h2
     exact ⟨sp2, by simp only [Spec.checkAll, h1]; exact g1, g2, g3⟩
 
 /-! ### what acceptance by the specification automaton means for a trace -/
@@ -1088,14 +1015,14 @@ def pending (s : State) : Bytes :=
   | some _ => []
   | none => s.rd.last.getD [] ++ (absQ (qOf s)).1
 
-/-- everything the monitor knows at the end of a panic-free run from the initial state -/
-theorem run_summary (c : Bool) (ops : List Op) (hnp : Out.panic ∉ (run (init c) ops).2) :
+/-- everything the monitor knows at the end of a run from the initial state -/
+theorem run_summary (c : Bool) (ops : List Op) :
     ∃ sp, ({} : Spec).checkAll ops (run (init c) ops).2 = .ok sp
       ∧ R (run (init c) ops).1 sp ∧ Inv (run (init c) ops).1 ∧ SI sp
       ∧ delivered (run (init c) ops).2 ++ sp.queue = accepted ops
       ∧ sp.perr = firstErr ops
       ∧ sp.queue = pending (run (init c) ops).1 := by
-  obtain ⟨sp, h1, h2, h3⟩ := sim_run (init c) {} ops (inv_init c) (rel_init c) hnp
+  obtain ⟨sp, h1, h2, h3⟩ := sim_run (init c) {} ops (inv_init c) (rel_init c)
   have hsi0 : SI ({} : Spec) := by intro h; cases h
   obtain ⟨t1, t2, t3⟩ := checkAll_trace {} sp ops _ (run_length _ _).symm hsi0 h1
   refine ⟨sp, h1, h2, h3, t3, by simpa using t1, by simpa using t2, ?_⟩
@@ -1117,19 +1044,14 @@ def afterErr (e : Nat) : Op → Out → Prop
   | .finh _, o => o = .skip
   | .load, o => o = .ok
   | .putD _, o => o = .ok
-  | .putE _, o => o = .ok ∨ o = .panic
+  | .putE _, o => o = .ok
 
 theorem sticky_step (e : Nat) (s : State) (op : Op) (h : Sticky e s) :
     Sticky e (step s op).1 ∧ afterErr e op (step s op).2 := by
   obtain ⟨he, hh⟩ := h
   cases op with
   | putD b => exact ⟨⟨he, hh⟩, rfl⟩
-  | putE x =>
-    refine ⟨⟨he, hh⟩, ?_⟩
-    simp only [step, afterErr]
-    split
-    · exact Or.inr rfl
-    · exact Or.inl rfl
+  | putE x => exact ⟨⟨he, hh⟩, rfl⟩
   | load => exact ⟨⟨he, hh⟩, rfl⟩
   | read n => simp [step, hh, he, Sticky, afterErr]
   | hdr n => simp [step, hh, he, Sticky, afterErr]
@@ -1231,7 +1153,7 @@ theorem err_sticky (s : State) (op : Op) (e : Nat) (h : (step s op).2 = .err e) 
     Sticky e (step s op).1 := by
   cases op with
   | putD b => cases h
-  | putE x => simp only [step] at h; split at h <;> cases h
+  | putE x => cases h
   | load => cases h
   | read n =>
     rw [step_read_callRes] at h ⊢
@@ -1305,9 +1227,9 @@ theorem put_err (b : RB) (r : Msg) (h : (put b r).err.isSome) : b.err.isSome ∨
     · simp only [hd, ↓reduceIte] at h; exact Or.inr h
     · simp only [hd, Bool.false_eq_true, ↓reduceIte, compact_err] at h; exact Or.inr h
 
-/-- only `put` of an error into a buffer that already saw one panics -/
-theorem step_panic (s : State) (op : Op) (h : (step s op).2 = .panic) :
-    ∃ e, op = .putE e ∧ s.rb.err.isSome = true := by
+/-- the ported code never panics (`Out.panic` only ever describes the implementation) -/
+theorem step_noPanic (s : State) (op : Op) : (step s op).2 ≠ .panic := by
+  intro h
   have hcons : ∀ (f : Reader → Msg → Nat → Reader × Out), Consumes f → ∀ rd m n, rd.last = none →
       (f rd m n).2 ≠ .panic := by
     intro f hf rd m n hl ho
@@ -1326,12 +1248,7 @@ theorem step_panic (s : State) (op : Op) (h : (step s op).2 = .panic) :
     · rw [hr] at ho; exact hcons f hf _ _ _ hl ho
   cases op with
   | putD b => cases h
-  | putE e =>
-    refine ⟨e, rfl, ?_⟩
-    simp only [step] at h
-    split at h
-    · rename_i hp; simp [putPanics] at hp; exact hp.1
-    · cases h
+  | putE e => cases h
   | load => cases h
   | read n => rw [step_read_callRes] at h; exact absurd h (hcall _ consumes_read _ n)
   | hdr n => rw [step_hdr_callRes] at h; exact absurd h (hcall _ consumes_hdr _ n)
@@ -1396,30 +1313,6 @@ theorem step_err_mono (s : State) (op : Op) (h : (step s op).1.rb.err.isSome) :
     rcases step_finh_cases s n with ⟨_, hr⟩ | ⟨m, hh, hr⟩
     · rw [hr] at h; exact h
     · rw [hr] at h; simp only [hload] at h; exact h
-
-/-- the callers' protocol (at most one error / end-of-stream per stream) excludes the panic -/
-theorem noPanic_of_oneErr (s : State) (ops : List Op)
-    (h0 : s.rb.err.isSome = true → errPuts ops = 0) (h1 : errPuts ops ≤ 1) :
-    Out.panic ∉ (run s ops).2 := by
-  induction ops generalizing s with
-  | nil => intro h; cases h
-  | cons o os ih =>
-    rw [run_cons]
-    simp only [List.mem_cons, not_or]
-    constructor
-    · intro hp
-      obtain ⟨e, he, hs⟩ := step_panic s o hp.symm
-      have := h0 hs
-      subst he
-      simp [errPuts] at this
-    · apply ih
-      · intro hs
-        rcases step_err_mono s o hs with h | h
-        · have := h0 h
-          cases o <;> simp [errPuts] at this ⊢ <;> exact this
-        · cases o <;> simp [opErr] at h
-          simp [errPuts] at h1 ⊢; omega
-      · cases o <;> simp [errPuts] at h1 ⊢ <;> omega
 
 theorem readCheck_err (sp sp' : Spec) (n e : Nat) (hsi : SI sp)
     (h : sp.readCheck n (.err e) = .ok sp') : sp.queue = [] ∧ sp.perr = some e := by
